@@ -8,6 +8,7 @@ import (
 	"reflect"
 	"strings"
 
+	"github.com/dave/dst"
 	"github.com/dave/dst/decorator"
 )
 
@@ -101,14 +102,21 @@ func (d *astDumper) Dump(n ast.Node) string {
 }
 
 func fragCaseTerm(src string) (string, bool) {
+	t, _, ok := fragDecCaseTerm(src, false)
+	return t, ok
+}
+
+// fragDecCaseTerm: the fragment case and, with withDec, the dump of the dst tree the real Decorator
+// builds from the same source (string ids shared with the go/ast dump)
+func fragDecCaseTerm(src string, withDec bool) (string, string, bool) {
 	fset := token.NewFileSet()
 	af, err := parser.ParseFile(fset, "a.go", src, parser.ParseComments)
 	if af == nil || (err != nil && !af.Pos().IsValid()) {
-		return "", false
+		return "", "", false
 	}
 	var v decorator.VerifLink
 	if pm := safely(func() { v = decorator.VerifFragmentAndLink(fset, af) }); pm != "" {
-		return "", false
+		return "", "", false
 	}
 	d := newAstDumper()
 	tree := d.Dump(af)
@@ -147,8 +155,18 @@ func fragCaseTerm(src string) (string, bool) {
 			exp = append(exp, fmt.Sprintf("(%d, FNl %v None)", int(fr.Pos), fr.Empty))
 		}
 	}
-	return fmt.Sprintf("mkFC (%s)\n  [%s] %d %d [%s]\n  [%s]", tree, strings.Join(coms, "; "), tf.Base(), tf.Size(),
-		strings.Join(lines, "; "), strings.Join(exp, "; ")), true
+	fc := fmt.Sprintf("mkFC (%s)\n  [%s] %d %d [%s]\n  [%s]", tree, strings.Join(coms, "; "), tf.Base(), tf.Size(),
+		strings.Join(lines, "; "), strings.Join(exp, "; "))
+	dterm := ""
+	if withDec {
+		var df *dst.File
+		var derr error
+		if pm := safely(func() { df, derr = decorator.NewDecorator(fset).DecorateFile(af) }); pm != "" || derr != nil || df == nil {
+			return "", "", false
+		}
+		dterm = d.td.Dump(df)
+	}
+	return fc, dterm, true
 }
 
 var fragExtra = []string{
@@ -184,4 +202,31 @@ func fragCorr(c *Ctx) {
 	c.caseSB.WriteString("Definition mismatch_fragment := Eval vm_compute in bad_fcases frag_tbl ast_stmt_kinds ast_decl_kinds fcases.\nPrint mismatch_fragment.\nLocal Close Scope Z_scope.\n")
 }
 
-func init() { corrs["FRAG"] = fragCorr }
+// Correspondence of the composed model fragment ; link ; decorate (Model/Decorate.v) against the
+// dst tree of the real Decorator.
+func decCorr(c *Ctx) {
+	var cases []string
+	srcs := append([]string{}, fragExtra...)
+	srcs = append(srcs, linkExtra...)
+	srcs = append(srcs, sinkSources...)
+	srcs = append(srcs, corrSources(c, c.N(3), 1200)...)
+	budget, used := c.N(600000), 0
+	for i, s := range srcs {
+		if i%2 == 1 {
+			s = mangle(c.Rng, s)
+		}
+		fc, dt, ok := fragDecCaseTerm(s, true)
+		if !ok || used+len(fc)+len(dt) > budget {
+			continue
+		}
+		used += len(fc) + len(dt)
+		cases = append(cases, fmt.Sprintf("mkDC (%s)\n  (%s)", fc, dt))
+		c.Res.CaseInputs = appendCase(c.Res.CaseInputs, "mismatch_decorate", s)
+		c.Res.Traces++
+	}
+	c.caseSB.WriteString(coqCaseHeader + "From DV Require Import Model.FragSkel Model.Link Model.Fragment Model.FragCases Model.Decorate Model.DecCases Gen.FragTbl Gen.DecTbl.\nLocal Open Scope Z_scope.\n")
+	c.caseSB.WriteString("Definition dcases : list dcase := [\n" + strings.Join(cases, ";\n") + "].\n")
+	c.caseSB.WriteString("Definition mismatch_decorate := Eval vm_compute in bad_dcases frag_tbl ast_stmt_kinds ast_decl_kinds dec_tbl dcases.\nPrint mismatch_decorate.\nLocal Close Scope Z_scope.\n")
+}
+
+func init() { corrs["FRAG"] = fragCorr; corrs["DEC"] = decCorr; corrs["C11"] = decCorr }
